@@ -763,7 +763,7 @@ attrsLoop:
 						}
 
 						if elementName == "a" && htmlAttr.Key == "target" {
-							if isBlankTarget(htmlAttr.Val) {
+							if htmlAttr.Val == "_blank" {
 								targetBlankFound = true
 							}
 							if addTargetBlank && !targetBlankFound {
@@ -771,6 +771,11 @@ attrsLoop:
 								targetBlankFound = true
 								tmpAttrs = append(tmpAttrs, htmlAttr)
 								appended = true
+							}
+							if isBlankTarget(htmlAttr.Val) {
+								// kept as written, and still a new browsing
+								// context for a browser
+								targetBlankFound = true
 							}
 						}
 
